@@ -297,7 +297,7 @@ func TestC19(t *testing.T) {
 	}
 	excl.ArrayAlias = rec.KnownActive("KF-array-alias", false)
 	rec.ReplayTier()
-	check(rec, "match-random", scale(15000, 300000), func(rt *rapid.T) {
+	check(rec, "match-random", scale(15000, 15000000), func(rt *rapid.T) {
 		c, labels := genC19(rt)
 		var ls []string
 		for l := range labels {
